@@ -255,6 +255,7 @@ CLAUSES = [
            'continuity at each breakpoint, zero S/Cv/Cp; objects serialised mid-history are re-checked at the end. Non-trivial = history with at least two '
            'different kinds of operation among insert, pop and reload'),
 ]
+FUZZ = [('C17.history', 15000, 3)]
 ASSUMPTIONS = ['R(kcal/mol/K) from pmutt.constants (judged by C12)',
                'order among exactly equal breakpoints is left to the library; the function is judged '
                'against the order the object itself lists']
